@@ -114,6 +114,7 @@ def analyse_class(ctx, repo, cls, tag):
         it = Interp(repo, cell, domains, hooks=hooks)
         it.pure_depth = 1          # entity code only: undecidable tests take their default, value-only attributes are not split
         it.value_only_default = "absent" if absent else "present"
+        it.honest_numeric = not absent      # ... except the truth of a number parsed from the stanza: "0" is explored
         n = Node(("c", tag) if tag else ("atom", ("A", (), "#tag")), ())
         cell.setdefault(("A", (), "to"), None)      # incoming stanzas carry `from`, never `to` (the iq constructor asserts it)
         res = {"entity": None, "node": None, "raised": None, "it": it}
@@ -186,6 +187,14 @@ def analyse_class(ctx, repo, cls, tag):
                 else:
                     out["same"].setdefault(key_id, sorted("%s[%s]" % ("/".join(a[1]) or "stanza", a[2]) for a in ats))
         out["written"] |= written_own
+        # a number that is zero in this cell is present all the same: its attribute must be written in this very cell
+        for zk, zv in it.zero_tests.items():
+            if cell.get(("F", zk)) is True:
+                for a in atoms_of(zv):
+                    if cell.get(a, 1) is None or a[2] == "#tag":
+                        continue
+                    if (norm_path(a[1]), a[2]) not in written_own and a in rs.get("stored", ()):
+                        out.setdefault("zero_lost", {})[(norm_path(a[1]), a[2])] = show(zv)[:60]
         for a in rs.get("stored", ()):
             if a[2] == "#tag":
                 continue
@@ -376,6 +385,9 @@ def rule_classes(ctx, only=None):
             probs.append("parsed but never written back: " + ", ".join("%s[%s]" % ("/".join(p) or "stanza", k) for p, k in missing[:4]))
         if unfed:
             probs.append("written from a field the parser never sets: " + ", ".join("%s[%s]" % ("/".join(p) or "stanza", k) for p, k in sorted(unfed)[:4]))
+        zl = r.get("zero_lost") or {}
+        if zl:
+            probs.append("dropped when its number is zero (the serialiser tests the converted value for truth: \"0\" is present, 0 is falsy): " + ", ".join("%s[%s]" % ("/".join(p) or "stanza", k) for p, k in sorted(zl)[:4]))
         if probs:
             ctx.violate("C09.kept", w, label, "; ".join(probs))
         else:
